@@ -1282,7 +1282,7 @@ def parseOraclesC (c : Config) (_st : PState) (buf : Bytes) (a : ParseAns) (sv :
     ("C08", !done || !wExport || reexportOk c isFixedPkt buf a.pkts a.exports),
     ("C09", !done || !wExport || reexportOk c isV9Pkt buf a.pkts a.exports),
     ("C10", !done || !wExport || reexportOk c isIpfixPkt buf a.pkts a.exports),
-    ("C13", !done || !wCommon || commonOk c names a.pkts a.common) ] ++
+    ("C13", !done || !wCommon || commonOkDup c names a.pkts a.common) ] ++
   (match sv with
    | some v =>
      if v.conformant then
